@@ -24,7 +24,8 @@ RULE = ("A case is 1-3 fake nodes with a fixed plan, one statement (simple / bou
         "every frame (host, consistency).  Without a speculative plan (no policy, or statement not idempotent) the reference "
         "model predicts the exact frame sequence, the policy consultations (method, retry_num) and the outcome; with a "
         "speculative plan the order-independent invariants are checked (retry_num, one consultation per error, consistency "
-        "of every frame = last chosen level).  Non-trivial: the policy was consulted at least twice.  Distinct by case digest.")
+        "of every frame = last chosen level, and a RETRY decision for a server error of a healthy host produces a frame to that "
+        "very host even while another attempt of the execution is in flight elsewhere).  Non-trivial: the policy was consulted at least twice.  Distinct by case digest.")
 ASSUMPTIONS = ["network, clock, executor and event loop are simulated (sim/); Cluster, Session, pools, connections, "
                "ResponseFuture and RetryPolicy dispatch are the real classes",
                "after a connection error the same host or the next plan host are both accepted for a RETRY decision "
@@ -224,11 +225,24 @@ def _run(case, ctx, sim):
                              "the statement is not idempotent" if case["spec"] else "there is no speculative execution policy"))
                 break
         node, conn, req = held[idx % len(held)] if concurrent else held[0]
-        if a in F.FATAL:
-            U.release(net, node, conn, req, a)
-        else:
-            U.release(net, node, conn, req, a)
+        nt0, nr0 = len(timeline), len(rlog)
+        U.release(net, node, conn, req, a)
         answered.append(a)
+        if concurrent and a in F.ERRORS:
+            # "retries on the same host ... exactly as decided", also while another attempt of the same
+            # execution is in flight elsewhere: the host is healthy and has free stream ids, so a RETRY
+            # decision for ITS error must produce a frame to IT (no virtual time passes in settle())
+            sim.settle()
+            new_cons, new_frames = rlog[nr0:], timeline[nt0:]
+            if len(new_cons) == 1 and new_cons[0]["decision"][0] == "retry" and new_frames:
+                me = index[node.address]
+                if len(held) > 1:
+                    ctx.label("retry-same-host-while-another-attempt-is-in-flight")
+                if not any(f[0] == me for f in new_frames):
+                    ctx.fail(["C16.frames", "host", "decision=retry", "overlap=%s" % (len(held) > 1)],
+                             "host %d answered %s, the policy decided RETRY on the same host, but the frame(s) sent then went to host(s) %r "
+                             "(attempts in flight at that moment: %r)" % (me, a, [f[0] for f in new_frames], [index[h[0].address] for h in held]))
+                    break
     sim.settle()
     sim.advance(0.5)
 
